@@ -623,10 +623,12 @@ def minimize_lbfgsb(
                         jac=grad,
                         nfev=sf.nfev,
                         njev=sf.ngev,
-                        nit=istate.nit,
+                        # the iteration is complete: same count as the final result
+                        nit=istate.nit + 1,
                         status=istate.warnflag,
                         message=istate.task_str,
-                        x=x,
+                        # x is updated in place at the next iteration: pass a copy
+                        x=np.copy(x),
                         success=istate.is_success,
                         hess_inv=LbfgsInvHessProduct(
                             np.atleast_2d(np.diff(np.array(X), axis=0)),
